@@ -22,6 +22,12 @@ EXTRA = {   # additional checks expected to notice a mutant
     'C18-int-hash-and-mask': ['C13'],
     'C14-retry-removes-staged-file': ['C08'],
     'C15-rlock-pid-frozen': [],
+    'C02-delitem-lookup-outside': ['C05'],
+    'C10-push-culls-in-second-txn': ['C14'],
+    'C20-pop-lookup-outside': ['C05'],
+    'C04-pop-clock-before-lock': ['C05'],
+    'C02-restore-only-default-settings': ['C18'],
+    'C06-removes-not-cleared-after-rollback': ['C08'],
     'C11-writes-list-never-cleared': ['C06'],
     'C19-pop-select-outside': ['C05'],
     'C18-init-overwrites-metadata': ['C05'],
